@@ -112,6 +112,24 @@ Proof.
       destruct (w_disjoint w y); [|discriminate]. injection R as <-. apply IH; auto.
 Qed.
 
+Lemma drops_app2 B a a' b b' : drops B a a' -> drops B b b' -> drops B (a ++ b) (a' ++ b').
+Proof. induction 1; cbn [app]; intros Hb; [exact Hb|constructor; auto|constructor; auto]. Qed.
+
+(* the write that starts at pos, found intact, is also what a reader positioned at its header finds *)
+Lemma tl_start_read log pos w : tl_start log pos = Some w -> w_off w = pos /\ tl_read log (w_hdr_off w) = Some w.
+Proof.
+  induction log as [|w0 log IH]; cbn [tl_start tl_read]; [discriminate|].
+  destruct (N.eqb_spec (w_off w0) pos) as [E|NE].
+  - intros [= <-]. rewrite N.eqb_refl. auto.
+  - destruct (tl_start log pos) as [x|]; [|discriminate].
+    destruct (w_disjoint w0 x) eqn:D; [|discriminate]. intros [= <-].
+    destruct (IH eq_refl) as [Eo R]. split; [exact Eo|].
+    destruct (N.eqb_spec (w_hdr_off w0) (w_hdr_off x)) as [Eh|Nh].
+    + apply w_disjoint_spec in D. pose proof (w_off_le_hdr w0). pose proof (w_hdr_lt_end w0).
+      pose proof (w_off_le_hdr x). pose proof (w_hdr_lt_end x). lia.
+    + rewrite R, D. reflexivity.
+Qed.
+
 (* two records readable in the same log are the same write or do not overlap *)
 Lemma tl_read_disjoint log a b x y :
   tl_read log a = Some x -> tl_read log b = Some y -> x = y \/ w_disjoint x y = true.
